@@ -86,6 +86,7 @@ func coResume(L *LState) int {
 	} else {
 		nargs := L.GetTop() - 1
 		L.XMoveTo(th, nargs)
+		th.finishYield(nargs)
 	}
 	top := L.GetTop()
 	threadRun(th)
